@@ -61,6 +61,7 @@ func runC15(a Args) Result {
 	var samples []interface{}
 	var errs []string
 	weakAnchored := 0
+	viaCount := map[string]int{}
 	// two passes: the production ID hasher, and a weak one (4 distinct outputs) that forces compact-ID
 	// collisions between different IRIs — queries must still answer for exactly the content hash asked
 	for pass, hname := range []string{"", "mod4"} {
@@ -83,9 +84,17 @@ func runC15(a Args) Result {
 			now := gen.GenesisTime.Add(5 * time.Second)
 			e.NextBlock(now)
 			type rec struct {
-				h   *data.ContentHash
-				iri string
-				t   time.Time
+				h    *data.ContentHash
+				iri  string
+				t    time.Time
+				via  string // anchor / attest / register
+				reso bool   // registered to the run's resolver
+			}
+			// one private resolver of the sender: some siblings are anchored implicitly by registering
+			// them to it (and graph siblings by attesting them) instead of by MsgAnchor
+			var resolverID uint64
+			if r := e.Exec(eng.Tx{Msgs: []sdk.Msg{&data.MsgDefineResolver{Definer: gen.ActorAddr(0).String(), ResolverUrl: "https://c15.example/" + hname, Public: false}}, Tag: "define-resolver"}); r != nil && r.OK {
+				resolverID = r.Resps[0].(*data.MsgDefineResolverResponse).ResolverId
 			}
 			byIRI := map[string]*rec{}
 			var all []*rec
@@ -112,7 +121,17 @@ func runC15(a Args) Result {
 						}
 						continue
 					}
-					r := e.Exec(eng.Tx{Msgs: []sdk.Msg{&data.MsgAnchor{Sender: sender, ContentHash: h}}, Tag: "anchor-sibling"})
+					via := "anchor"
+					var msg sdk.Msg = &data.MsgAnchor{Sender: sender, ContentHash: h}
+					switch x := rng.Intn(10); {
+					case x < 3 && resolverID != 0:
+						via = "register"
+						msg = &data.MsgRegisterResolver{Signer: sender, ResolverId: resolverID, ContentHashes: []*data.ContentHash{h}}
+					case x < 5 && h.Graph != nil:
+						via = "attest"
+						msg = &data.MsgAttest{Attestor: sender, ContentHashes: []*data.ContentHash_Graph{h.Graph}}
+					}
+					r := e.Exec(eng.Tx{Msgs: []sdk.Msg{msg}, Tag: via + "-sibling"})
 					if r == nil || !r.OK {
 						e.Violate("C15", "valid-hash-not-anchored", fmt.Sprintf("a content hash that passes Validate could not be anchored: %v", irimon.Describe(h)))
 						continue
@@ -121,9 +140,13 @@ func runC15(a Args) Result {
 						if !hashEq(o.h, h) {
 							e.Violate("C15", "injectivity", fmt.Sprintf("two different valid content hashes share the IRI %s: %v and %v", iri, irimon.Describe(o.h), irimon.Describe(h)))
 						}
+						if via == "register" {
+							o.reso = true
+						}
 						continue
 					}
-					rc := &rec{h, iri, now}
+					viaCount[via]++
+					rc := &rec{h, iri, now, via, via == "register"}
 					byIRI[iri] = rc
 					all = append(all, rc)
 					anchored++
@@ -142,6 +165,25 @@ func runC15(a Args) Result {
 				e.Violate("C15", "table-count", fmt.Sprintf("%d distinct valid content hashes were anchored but the DataID table has %d rows", len(all), n))
 			}
 			for _, rc := range all {
+				// resolvers: exactly the run's resolver if this very hash was registered, none otherwise
+				var q1 data.QueryResolversByHashResponse
+				err1 := app.Query("/regen.data.v2.Query/ResolversByHash", &data.QueryResolversByHashRequest{ContentHash: rc.h}, &q1)
+				var q2 data.QueryResolversByIRIResponse
+				err2 := app.Query("/regen.data.v2.Query/ResolversByIRI", &data.QueryResolversByIRIRequest{Iri: rc.iri}, &q2)
+				for qi, got := range [][]*data.ResolverInfo{q1.Resolvers, q2.Resolvers} {
+					name := []string{"ResolversByHash", "ResolversByIRI"}[qi]
+					if err := []error{err1, err2}[qi]; err != nil {
+						e.Violate("C15", "query-resolvers", fmt.Sprintf("%s(%v) failed for an anchored hash (anchored via %s): %v", name, irimon.Describe(rc.h), rc.via, err))
+						continue
+					}
+					if rc.reso && (len(got) != 1 || got[0].Id != resolverID) {
+						e.Violate("C15", "query-resolvers", fmt.Sprintf("%s(%v): the hash was registered to resolver %d but the query answers %v", name, irimon.Describe(rc.h), resolverID, got))
+					}
+					if !rc.reso && len(got) != 0 {
+						e.Violate("C15", "query-resolvers-for-other-hash", fmt.Sprintf("%s(%v): nobody registered this hash to a resolver (anchored via %s) but the query answers %v — a registration of different data", name, irimon.Describe(rc.h), rc.via, got))
+					}
+				}
+				queries += 2
 				var r1 data.ConvertHashToIRIResponse
 				if err := app.Query("/regen.data.v2.Query/ConvertHashToIRI", &data.ConvertHashToIRIRequest{ContentHash: rc.h}, &r1); err != nil || r1.Iri != rc.iri {
 					e.Violate("C15", "query-hash-to-iri", fmt.Sprintf("ConvertHashToIRI(%v) = %q (err %v), expected %q", irimon.Describe(rc.h), r1.Iri, err, rc.iri))
@@ -190,6 +232,7 @@ func runC15(a Args) Result {
 		}
 	}
 	cov["hashes_anchored_with_colliding_ids"] = weakAnchored
+	cov["first_anchoring_by_message"] = map[string]interface{}{"MsgAnchor": viaCount["anchor"], "MsgAttest": viaCount["attest"], "MsgRegisterResolver": viaCount["register"]}
 	cov["evaluations"] = queries + anchored
 	cov["hashes_anchored_on_chain"] = anchored
 	cov["families_generated"] = families
